@@ -6,7 +6,8 @@
 (*                                                                         *)
 (*   wcall(t, e, file, bytes, pages) / wret     write(entry, file)         *)
 (*   dcall(t, e, pages) / dret                  discard(entry)             *)
-(*   alloc(id) / free(id)                       recording PageAllocator    *)
+(*   alloc(ids) / free(ids)                     recording PageAllocator    *)
+(*                                              (runs of one thread merged)*)
 (*   check(f, g, rot)                           recording FileObject       *)
 (*   writev(f, g, segs: page id, off, len ..)   as issued by the appender  *)
 (*   ccall / cret                               close()                    *)
@@ -36,16 +37,15 @@ EXTENDS Naturals, Integers, Sequences, FiniteSets, TLC, Json, IOUtils
 Tr == ndJsonDeserialize(IOEnv.TRACE)
 
 VARIABLES l, P, judge,
-          ent,      \* entry id -> [t, f, n, bytes, pages, kind]
-          owner,    \* page id -> entry id
+          ent,      \* entry id -> [t, f, n, ln, kind]; ln = line of the call (bytes / pages stay in the trace: small states)
           wdone, must, closed,
           out,      \* pages currently allocated
-          files,    \* <<f, g>> -> data
+          files,    \* <<f, g>> -> line of the "file" event carrying the data read back
           live,     \* pages still allocated at the end (-1: not reported)
           notes,    \* {<<"o1", line>>}: executions in which close() hung on a full queue
           bad
 
-mvars == <<l, P, judge, ent, owner, wdone, must, closed, out, files, live, notes, bad>>
+mvars == <<l, P, judge, ent, wdone, must, closed, out, files, live, notes, bad>>
 
 Flag(b, name) == IF b /\ bad = "" THEN name ELSE bad
 SeqSet(q) == {q[i] : i \in 1..Len(q)}
@@ -54,63 +54,66 @@ Ext(f, k, v) == [x \in DOMAIN f \cup {k} |-> IF x = k THEN v ELSE f[x]]
 MInit ==
   /\ l = 2 /\ Tr[1].k = "reset"
   /\ P = Tr[1].P /\ judge = Tr[1].judge_close
-  /\ ent = << >> /\ owner = << >> /\ wdone = {} /\ must = {} /\ closed = "no"
+  /\ ent = << >> /\ wdone = {} /\ must = {} /\ closed = "no"
   /\ out = {} /\ files = << >> /\ live = <<-1>> /\ notes = {} /\ bad = ""
   /\ TLCSet(1, 1) /\ TLCSet(2, {})
 
 Fresh(e) ==
   /\ P' = e.P /\ judge' = e.judge_close
-  /\ ent' = << >> /\ owner' = << >> /\ wdone' = {} /\ must' = {} /\ closed' = "no"
+  /\ ent' = << >> /\ wdone' = {} /\ must' = {} /\ closed' = "no"
   /\ out' = {} /\ files' = << >> /\ live' = <<-1>>
   /\ UNCHANGED <<notes, bad>>
 
 Same(vs) == UNCHANGED vs
 
 MCallW(e, kind) ==
-  /\ ent' = Ext(ent, e.e, [t |-> e.t, f |-> e.f, n |-> e.n, bytes |-> e.bytes, pages |-> e.pages, kind |-> kind])
-  /\ owner' = [p \in DOMAIN owner \cup SeqSet(e.pages) |-> IF p \in SeqSet(e.pages) THEN e.e ELSE owner[p]]
+  /\ ent' = Ext(ent, e.e, [t |-> e.t, f |-> e.f, n |-> e.n, ln |-> l, kind |-> kind])
   /\ bad' = Flag(e.e \in DOMAIN ent \/ ~(SeqSet(e.pages) \subseteq out), "Protocol")
   /\ Same(<<P, judge, wdone, must, closed, out, files, live, notes>>)
 
 MRetW(e) ==
   /\ wdone' = wdone \cup {e.e}
-  /\ Same(<<P, judge, ent, owner, must, closed, out, files, live, notes, bad>>)
+  /\ Same(<<P, judge, ent, must, closed, out, files, live, notes, bad>>)
+
+NoDup(q) == Cardinality(SeqSet(q)) = Len(q)
 
 MAlloc(e) ==
-  /\ out' = out \cup {e.id}
-  /\ bad' = Flag(e.id \in out, "Protocol")
-  /\ Same(<<P, judge, ent, owner, wdone, must, closed, files, live, notes>>)
+  /\ out' = out \cup SeqSet(e.ids)
+  /\ bad' = Flag(SeqSet(e.ids) \cap out # {} \/ ~NoDup(e.ids), "Protocol")
+  /\ Same(<<P, judge, ent, wdone, must, closed, files, live, notes>>)
 
 MFree(e) ==
-  /\ out' = out \ {e.id}
-  /\ bad' = Flag(e.id \notin out, "PagesConserved")      \* returned twice, or never handed out
-  /\ Same(<<P, judge, ent, owner, wdone, must, closed, files, live, notes>>)
+  /\ out' = out \ SeqSet(e.ids)
+  /\ bad' = Flag(~(SeqSet(e.ids) \subseteq out) \/ ~NoDup(e.ids), "PagesConserved")      \* returned twice, or never handed out
+  /\ Same(<<P, judge, ent, wdone, must, closed, files, live, notes>>)
+
+\* pages of entries that were NOT written for file f (other destination, or discarded)
+OtherPages(f) == UNION {SeqSet(Tr[ent[x].ln].pages) : x \in {y \in DOMAIN ent : ~(ent[y].kind = "w" /\ ent[y].f = f)}}
 
 MWritev(e) ==
   LET pagesOk == \A i \in 1..Len(e.segs) : e.segs[i][1] \in out /\ e.segs[i][2] = 0 /\ e.segs[i][3] <= P
-      oneDest == \A i \in 1..Len(e.segs) : LET p == e.segs[i][1]
-                                          IN (p \in DOMAIN owner /\ owner[p] \in DOMAIN ent) => (ent[owner[p]].kind = "w" /\ ent[owner[p]].f = e.f)
+      oneDest == {e.segs[i][1] : i \in 1..Len(e.segs)} \cap OtherPages(e.f) = {}
   IN /\ bad' = IF ~pagesOk THEN Flag(TRUE, "NoForeignPage")
                ELSE IF e.f < 0 THEN Flag(TRUE, "WrittenExactlyOnce")    \* written to a descriptor that is no generation of any file
                ELSE Flag(~oneDest, "Unmixed")
-     /\ Same(<<P, judge, ent, owner, wdone, must, closed, out, files, live, notes>>)
+     /\ Same(<<P, judge, ent, wdone, must, closed, out, files, live, notes>>)
 
 MCCall(e) ==
   /\ must' = wdone /\ closed' = "called"
-  /\ Same(<<P, judge, ent, owner, wdone, out, files, live, notes, bad>>)
+  /\ Same(<<P, judge, ent, wdone, out, files, live, notes, bad>>)
 
 MCRet(e) ==
   /\ closed' = "ret"
-  /\ Same(<<P, judge, ent, owner, wdone, must, out, files, live, notes, bad>>)
+  /\ Same(<<P, judge, ent, wdone, must, out, files, live, notes, bad>>)
 
 MFile(e) ==
-  /\ files' = Ext(files, <<e.f, e.g>>, e.data)
-  /\ Same(<<P, judge, ent, owner, wdone, must, closed, out, live, notes, bad>>)
+  /\ files' = Ext(files, <<e.f, e.g>>, l)
+  /\ Same(<<P, judge, ent, wdone, must, closed, out, live, notes, bad>>)
 
 MFinal(e) ==
   /\ live' = e.live
   /\ bad' = Flag(~e.guards, "NoOverrun")
-  /\ Same(<<P, judge, ent, owner, wdone, must, closed, out, files, notes>>)
+  /\ Same(<<P, judge, ent, wdone, must, closed, out, files, notes>>)
 
 \* ---- the files, parsed ---------------------------------------------------------------------------
 \* one generation: acc = [err, seen, order]
@@ -120,14 +123,14 @@ ParseGen(D, pos, f, acc) ==
   ELSE LET id == D[pos]
        IN IF id \notin DOMAIN ent \/ ent[id].kind # "w" \/ ent[id].f # f THEN [acc EXCEPT !.err = "WrittenExactlyOnce"]  \* nobody wrote this here
           ELSE IF id \in acc.seen THEN [acc EXCEPT !.err = "WrittenExactlyOnce"]                                          \* a second time
-          ELSE IF pos + ent[id].n - 1 > Len(D) \/ SubSeq(D, pos, pos + ent[id].n - 1) # ent[id].bytes THEN [acc EXCEPT !.err = "Unmixed"]
+          ELSE IF pos + ent[id].n - 1 > Len(D) \/ SubSeq(D, pos, pos + ent[id].n - 1) # Tr[ent[id].ln].bytes THEN [acc EXCEPT !.err = "Unmixed"]
           ELSE ParseGen(D, pos + ent[id].n, f, [acc EXCEPT !.seen = acc.seen \cup {id}, !.order = Append(acc.order, id)])
 
 Gens(f) == {k[2] : k \in {x \in DOMAIN files : x[1] = f}}
 RECURSIVE ParseFile(_, _, _)
 ParseFile(f, g, acc) ==   \* generations in ascending order
   IF g > 8 THEN acc
-  ELSE IF g \in Gens(f) THEN ParseFile(f, g + 1, ParseGen(files[<<f, g>>], 1, f, acc))
+  ELSE IF g \in Gens(f) THEN ParseFile(f, g + 1, ParseGen(Tr[files[<<f, g>>]].data, 1, f, acc))
   ELSE ParseFile(f, g + 1, acc)
 
 Parsed == LET a0 == ParseFile(0, 0, [err |-> "", seen |-> {}, order |-> << >>])
@@ -150,7 +153,7 @@ MEnd(e) ==
                ELSE IF e.status \in {"crash", "hang"} THEN Flag(TRUE, "NoCrash")
                ELSE Flag(TRUE, "NothingLost")       \* close() did not return although the queue had room
      /\ notes' = IF hungO1 THEN notes \cup {<<"o1", ToString(l)>>} ELSE notes
-     /\ Same(<<P, judge, ent, owner, wdone, must, closed, out, files, live>>)
+     /\ Same(<<P, judge, ent, wdone, must, closed, out, files, live>>)
 
 MNext ==
   /\ l <= Len(Tr)
@@ -167,12 +170,22 @@ MNext ==
           [] e.k = "file" -> MFile(e)
           [] e.k = "final" -> MFinal(e)
           [] e.k = "end" -> MEnd(e)
-          [] OTHER -> UNCHANGED <<P, judge, ent, owner, wdone, must, closed, out, files, live, notes, bad>>
+          [] OTHER -> UNCHANGED <<P, judge, ent, wdone, must, closed, out, files, live, notes, bad>>
   /\ l' = l + 1
   /\ TLCSet(1, l') /\ TLCSet(2, notes')
 
 MSpec == MInit /\ [][MNext]_mvars
 
 Holds == bad = ""
+\* one invariant per clause, so that TLC's message names the clause
+WrittenExactlyOnce == bad # "WrittenExactlyOnce"
+Unmixed == bad # "Unmixed"
+PerThreadOrder == bad # "PerThreadOrder"
+NothingLost == bad # "NothingLost"
+PagesConserved == bad # "PagesConserved"
+NoForeignPage == bad # "NoForeignPage"
+NoOverrun == bad # "NoOverrun"
+NoCrash == bad # "NoCrash"
+Protocol == bad # "Protocol"
 Post == PrintT(<<"VERIF", TLCGet(1) - 1, Len(Tr), TLCGet(2)>>)
 =============================================================================
